@@ -119,12 +119,22 @@ def theorem_names(prop_file):
     return re.findall(r"^\s*(?:Theorem|Corollary)\s+([A-Za-z0-9_']+)", txt, flags=re.M)
 
 
-def print_assumptions(prop_id, names, rundir):
-    """Returns {theorem: [axioms]} ('Closed' -> [])."""
-    body = "From Ka Require Import Properties.%s.\n" % prop_id
+def assumption_targets(coq_file):
+    """the lemmas a facts file itself lists under `Print Assumptions` (top level, as written there)"""
+    txt = open(os.path.join(COQ, coq_file), encoding="utf-8").read()
+    txt = re.sub(r"\(\*.*?\*\)", " ", txt, flags=re.S)
+    names = re.findall(r"^\s*Print Assumptions\s+([A-Za-z0-9_'.]+?)\.\s*$", txt, flags=re.M)
+    if not names:       # the table-fact files: every top-level lemma
+        names = re.findall(r"^(?:Lemma|Theorem|Corollary)\s+([A-Za-z0-9_']+)", txt, flags=re.M)
+    return names
+
+
+def print_assumptions(prop_id, names, rundir, module=None):
+    """Returns {theorem: [axioms]} ('Closed' -> []).  `module` (e.g. GenFacts.NumSrcFacts) replaces Properties.<id>."""
+    body = "From Ka Require Import %s.\n" % (module or "Properties.%s" % prop_id)
     for n in names:
         body += 'Print Assumptions %s.\n' % n
-    path = os.path.join(rundir, "Assume_%s.v" % prop_id)
+    path = os.path.join(rundir, "Assume_%s_%s.v" % (prop_id, (module or "P").replace(".", "_")))
     open(path, "w").write(body)
     p = subprocess.run(["timeout", "300", "coqc", "-Q", COQ, "Ka", path], stdout=subprocess.PIPE,
                        stderr=subprocess.STDOUT, text=True, cwd=rundir)
